@@ -156,13 +156,17 @@ def only_remote_refs(s):
         s.get(k, "http://ex.test/root/schema.json") == "http://ex.test/root/schema.json" for k in ("id", "$id"))
 
 
-def risky_ref(v):
-    """Any object anywhere carrying a `$ref` member whose value is a string (a reference cycle could hide
-    there) or not a string (outside the property's precondition)."""
+MAP_KEYWORDS = ("properties", "patternProperties", "definitions", "dependencies", "$defs")
+
+
+def risky_ref(v, in_map=False):
+    """Any object at (what may be) a schema position carrying a `$ref` member: a string there could hide a
+    reference cycle, anything else is outside the property's precondition.  Members of properties-like maps
+    are names, not keywords: {"properties": {"$ref": {...}}} declares a property called $ref."""
     if isinstance(v, dict):
-        if "$ref" in v and not isinstance(v["$ref"], (dict, bool)):
+        if not in_map and "$ref" in v:
             return True
-        return any(risky_ref(e) for e in v.values())
+        return any(risky_ref(e, in_map=(not in_map and k in MAP_KEYWORDS)) for k, e in v.items())
     if isinstance(v, list):
         return any(risky_ref(e) for e in v)
     return False
@@ -174,11 +178,11 @@ def only_safe_refs(s):
     if not isinstance(s, dict) or s.get("definitions") != SAFE_DEFS:
         return False
 
-    def ok(v):
+    def ok(v, in_map=False):
         if isinstance(v, dict):
-            if "$ref" in v and not isinstance(v["$ref"], (dict, bool)) and v["$ref"] not in SAFE_REFS:
+            if not in_map and "$ref" in v and not (isinstance(v["$ref"], str) and v["$ref"] in SAFE_REFS):
                 return False
-            return all(ok(e) for e in v.values())
+            return all(ok(e, in_map=(not in_map and k in MAP_KEYWORDS)) for k, e in v.items())
         if isinstance(v, list):
             return all(ok(e) for e in v)
         return True
